@@ -1153,11 +1153,140 @@ Proof.
   rewrite (i_nacc _ _ _ HI), (i_nrej _ _ _ HI), (i_nver _ _ _ HI), (i_npre1 _ _ _ HI), (i_npre2 _ _ _ HI).
   rewrite !eqb_listN_refl.
   assert (H1 : eqb_listN (accepts tr) (firstn (length (accepts tr)) (e_acc es)) = true).
-  { rewrite (i_queue _ _ _ HI) at 2. rewrite firstn_length_app. apply eqb_listN_refl. }
+  { rewrite (i_queue _ _ _ HI). rewrite firstn_length_app. apply eqb_listN_refl. }
   assert (H2 : (N.of_nat (length (accepts tr)) + e_pending es =? N.of_nat (length (e_acc es))) = true).
-  { apply N.eqb_eq. rewrite (i_queue _ _ _ HI) at 2. rewrite app_length, map_length, <- (i_pending _ _ _ HI). unfold lenN. lia. }
+  { apply N.eqb_eq. rewrite (i_queue _ _ _ HI). rewrite app_length, map_length, <- (i_pending _ _ _ HI). unfold lenN. lia. }
   assert (H3 : forallb (fun b => negb (memN b (e_rej es))) (e_acc es) = true).
   { apply forallb_forall. intros b Hb. apply negb_true_iff. apply memN_false.
     apply (i_chain_rej _ _ _ HI). exact (i_acc_in _ _ _ HI _ Hb). }
   rewrite H1, H2, H3. reflexivity.
+Qed.
+
+Lemma chain_at_height_spec es k b : chain_at_height es k = Some b -> In b (e_chain es) /\ e_height es b = k.
+Proof.
+  unfold chain_at_height. intros H. apply find_some in H. destruct H as [A B]. apply N.eqb_eq in B. auto.
+Qed.
+
+Lemma last_id st es tr : Inv st es tr -> o_id (obj_of st (s_last st)) = e_last es.
+Proof. intros HI. destruct (i_last _ _ _ HI) as (A & _). apply (oiv_obj_of _ _ _ _ A). Qed.
+
+Lemma idh_chain st es tr k b : Inv st es tr -> In b (e_chain es) -> e_height es b = k ->
+  k <> e_height es (e_last es) ->
+  match lookup k (s_acc_h st) with Some b' => Some b' | None => lookup k (s_dhi st) end = Some b.
+Proof.
+  intros HI Hin Hk Hne. destruct (lookup k (s_acc_h st)) as [b'|] eqn:E.
+  - apply lookup_In in E. destruct (i_acch _ _ _ HI _ _ E) as [A B]. f_equal.
+    apply (i_hinj _ _ _ HI); [exact A | exact Hin | congruence].
+  - destruct (i_disk _ _ _ HI _ Hin) as [_ D]. rewrite Hk in D. exact D.
+Qed.
+
+Lemma inv_lookup c st es tr o : Inv st es tr -> lookup_ok es o (snd (fst (step c st o))) = true.
+Proof.
+  intros HI. destruct o; try reflexivity; cbn [lookup_ok step].
+  - (* GetBlock *)
+    destruct (memN b (e_chain es)) eqn:Ec.
+    + apply memN_In in Ec. destruct (get_block_chain _ _ _ _ HI Ec) as (rf & Hg & Hid). rewrite Hg.
+      cbn [fst snd]. unfold res_of_ref. rewrite Hid. apply N.eqb_refl.
+    + destruct (lookup b (e_proc es)) as [h|] eqn:Ep; [|reflexivity].
+      unfold get_block. rewrite (i_proc _ _ _ HI), Ep. cbn [fst snd]. unfold res_of_ref. cbn [ref_obj].
+      destruct (i_procobj _ _ _ HI _ _ Ep) as (A & _). destruct (oiv_obj_of _ _ _ _ A) as [-> _].
+      rewrite !N.eqb_refl. reflexivity.
+  - (* GetBlockIDAtHeight *)
+    destruct (chain_at_height es k) as [b|] eqn:Ec; [|reflexivity].
+    apply chain_at_height_spec in Ec. destruct Ec as [Hin Hk].
+    unfold id_at_height. rewrite (last_id _ _ _ HI), (height_eq _ _ _ _ HI).
+    destruct (k =? e_height es (e_last es)) eqn:E.
+    + apply N.eqb_eq in E. cbn [fst snd]. apply N.eqb_eq.
+      apply (i_hinj _ _ _ HI); [apply (i_last _ _ _ HI) | exact Hin | congruence].
+    + apply N.eqb_neq in E. pose proof (idh_chain _ _ _ _ _ HI Hin Hk E) as X.
+      destruct (lookup k (s_acc_h st)) as [b'|].
+      * injection X as ->. cbn [fst snd]. apply N.eqb_refl.
+      * rewrite X. cbn [fst snd]. apply N.eqb_refl.
+  - (* GetBlockByHeight *)
+    destruct (chain_at_height es k) as [b|] eqn:Ec; [|reflexivity].
+    apply chain_at_height_spec in Ec. destruct Ec as [Hin Hk].
+    unfold block_by_height. rewrite (last_id _ _ _ HI), (height_eq _ _ _ _ HI).
+    destruct (e_height es (e_last es) =? k) eqn:E.
+    + apply N.eqb_eq in E. cbn [fst snd]. unfold res_of_ref. cbn [ref_obj]. rewrite (last_id _ _ _ HI).
+      apply N.eqb_eq. apply (i_hinj _ _ _ HI); [apply (i_last _ _ _ HI) | exact Hin | congruence].
+    + apply N.eqb_neq in E. assert (E' : k <> e_height es (e_last es)) by congruence.
+      rewrite (idh_chain _ _ _ _ _ HI Hin Hk E').
+      destruct (lookup b (s_acc_id st)) as [h|] eqn:Ea.
+      * cbn [fst snd]. unfold res_of_ref. cbn [ref_obj]. apply lookup_In in Ea.
+        destruct (i_accid _ _ _ HI _ _ Ea) as [[v Hv] _]. destruct (oiv_obj_of _ _ _ _ Hv) as [-> _]. apply N.eqb_refl.
+      * destruct (get_block_chain _ _ _ _ HI Hin) as (rf & Hg & Hid). rewrite Hg.
+        cbn [fst snd]. unfold res_of_ref. rewrite Hid. apply N.eqb_refl.
+  - (* LastAccepted *)
+    cbn [fst snd]. rewrite (last_id _ _ _ HI). apply N.eqb_refl.
+Qed.
+
+(* ------------------------------------------------------------------ the theorems of C20 *)
+Theorem lifecycle_all_runs c Q ops st es tr :
+  c_ready c = true -> 1 <= c_W c -> no_sync ops = true ->
+  erun c Q (init_state c) (init_estate c) ops = Some (st, es, tr) ->
+  lifecycle_b (init_events c ++ tr) es = true.
+Proof.
+  intros Hr HW Hns HR. apply (inv_lifecycle st).
+  eapply inv_erun; [exact HW | exact Hns | apply inv_init; exact Hr | exact HR].
+Qed.
+
+Theorem lookup_all_runs c Q ops st es tr o :
+  c_ready c = true -> 1 <= c_W c -> no_sync ops = true ->
+  erun c Q (init_state c) (init_estate c) ops = Some (st, es, tr) ->
+  lookup_ok es o (snd (fst (step c st o))) = true.
+Proof.
+  intros Hr HW Hns HR. apply (inv_lookup c st es (init_events c ++ tr)).
+  eapply inv_erun; [exact HW | exact Hns | apply inv_init; exact Hr | exact HR].
+Qed.
+
+(* readable forms *)
+Lemma vp_sound es tr : forall outs, verify_parents_ok es outs tr = true ->
+  forall a p b ok rest, tr = a ++ EVerify p b ok :: rest ->
+  In p (outs_after outs a) /\ e_parent es b = p /\ ok = negb (e_invalid es b).
+Proof.
+  induction tr as [|e r IH]; intros outs H a p b ok rest E.
+  - destruct a; discriminate.
+  - destruct a as [|e' a'].
+    + cbn [app] in E. injection E as -> ->. cbn [verify_parents_ok] in H.
+      rewrite !andb_true_iff in H. destruct H as [[[H1 H2] H3] _].
+      cbn [outs_after fold_left]. apply memN_In in H1. apply N.eqb_eq in H2. apply eqb_prop in H3. auto.
+    + cbn [app] in E. injection E as -> ->. cbn [outs_after fold_left].
+      destruct e' as [| | |p' b' ok'| | | | | | |]; cbn [verify_parents_ok out_step] in *;
+        try (eapply IH; [exact H | reflexivity]).
+      * rewrite !andb_true_iff in H. destruct H as [[_ _] H]. eapply IH; [exact H | reflexivity].
+      * discriminate.
+      * rewrite !andb_true_iff in H. destruct H as [_ H]. destruct ok'; (eapply IH; [exact H | reflexivity]).
+Qed.
+
+Lemma lifecycle_props st es tr : Inv st es tr ->
+  verify_parents_ok es [0] tr = true /\
+  (exists pending, e_acc es = accepts tr ++ pending /\ lenN pending = e_pending es) /\
+  chain_from es 0 (e_acc es) = true /\ NoDup (e_acc es) /\
+  (forall b, In b (e_acc es) -> ~ In b (e_rej es)) /\
+  naccepted tr = 0 :: accepts tr /\ nrejected tr = e_rej es /\ nverified tr = verified_parsed es.
+Proof.
+  intros HI. repeat split.
+  - exact (i_vp _ _ _ HI).
+  - exists (map (fun h => o_id (obj_of st h)) (s_queue st)). split; [exact (i_queue _ _ _ HI)|].
+    rewrite <- (i_pending _ _ _ HI). unfold lenN. rewrite map_length. reflexivity.
+  - exact (i_acc_chain _ _ _ HI).
+  - exact (i_acc_nodup _ _ _ HI).
+  - intros b Hb. apply (i_chain_rej _ _ _ HI). exact (i_acc_in _ _ _ HI _ Hb).
+  - exact (i_nacc _ _ _ HI).
+  - exact (i_nrej _ _ _ HI).
+  - exact (i_nver _ _ _ HI).
+Qed.
+
+Theorem lifecycle_props_all_runs c Q ops st es tr :
+  c_ready c = true -> 1 <= c_W c -> no_sync ops = true ->
+  erun c Q (init_state c) (init_estate c) ops = Some (st, es, tr) ->
+  let T := init_events c ++ tr in
+  verify_parents_ok es [0] T = true /\
+  (exists pending, e_acc es = accepts T ++ pending /\ lenN pending = e_pending es) /\
+  chain_from es 0 (e_acc es) = true /\ NoDup (e_acc es) /\
+  (forall b, In b (e_acc es) -> ~ In b (e_rej es)) /\
+  naccepted T = 0 :: accepts T /\ nrejected T = e_rej es /\ nverified T = verified_parsed es.
+Proof.
+  intros Hr HW Hns HR. apply (lifecycle_props st).
+  eapply inv_erun; [exact HW | exact Hns | apply inv_init; exact Hr | exact HR].
 Qed.
